@@ -308,6 +308,10 @@ def r14_5(chk, cr, mutators, fx):
             for a in find_atoms(e.value, lambda a: a[0] == "dict" and len(a[1]) >= 8):
                 fresh = {string_value(k): v for k, v in a[1]}
     chk.need(fresh, f"{q}: fresh CIF dictionary literal not found")
+    # what is exported is read back through from_cif_data: of alternative item names the refreshed one must be tried first
+    from .c10 import alternatives_order
+    rq = "Crystal.from_cif_data"
+    alternatives_order(chk, "R14.5", cr, cr.ev(rq), rq, fresh)
     state_keys = sorted(k for k, v in fresh.items() if any(s in v.key() for s in
                         ("self.unit_cell", "self.asymmetric_unit", "self.space_group", "self.symmetry_operations")))
     chk.need(len(state_keys) >= 8, f"{q}: expected >= 8 state-derived CIF keys, found {state_keys}")
